@@ -548,7 +548,9 @@ func (r *resolver) resolveRef(rs *Resolved, s *Schema, ref string) (_ *Schema, d
 			}
 			// Check if referenced schema has $schema defined. If not it should inherit the resolved
 			if ls.Schema == "" {
-				ls.Schema = s.Schema
+				// Inherit from the root of the referring document: s is the schema
+				// holding the $ref, and only a document root declares $schema.
+				ls.Schema = rs.root.Schema
 			}
 			lrs, err := r.resolve(ls, fraglessRefURI)
 			if err != nil {
